@@ -85,3 +85,15 @@ Proof. split; reflexivity. Qed.
 Lemma h1_write_subset_call_go_as_modelled :
   src_h1_write_subset_call = bs "headerWriteSubset(r.Header, reqWriteExcludeHeader, writeHeader, sort)".
 Proof. reflexivity. Qed.
+
+(* round 5 *)
+(* redirect.go AlwaysCopyHeaderRedirectPolicy: presence and values through the canonicalising
+   Header.Values, the copy through Header.Add (policy_step) *)
+Lemma always_copy_go_as_modelled :
+  src_AlwaysCopyHeaderRedirectPolicy = bs "{ return func(req *http.Request, via []*http.Request) error { for _, header := range headers { if len(req.Header.Values(header)) > 0 { continue } vals := via[0].Header.Values(header) for _, val := range vals { req.Header.Add(header, val) } } return nil } }".
+Proof. reflexivity. Qed.
+
+(* http2 writeHeaders: first fragment 5 bytes shorter under a priority, END_HEADERS after the cut (split_block) *)
+Lemma h2_write_headers_go_as_modelled :
+  src_h2_writeHeaders = bs "{ first := true for len(hdrs) > 0 && cc.werr == nil { chunk := hdrs max := maxFrameSize if first && !cc.t.HeaderPriority.IsZero() && max > 5 { max -= 5 } if len(chunk) > max { chunk = chunk[:max] } hdrs = hdrs[len(chunk):] endHeaders := len(hdrs) == 0 if first { cc.fr.WriteHeaders(HeadersFrameParam{StreamID: streamID, BlockFragment: chunk, EndStream: endStream, EndHeaders: endHeaders, Priority: cc.t.HeaderPriority}) first = false } else { cc.fr.WriteContinuation(streamID, endHeaders, chunk) } } cc.bw.Flush() return cc.werr }".
+Proof. reflexivity. Qed.
